@@ -117,6 +117,9 @@ func (fr *frame) get(key ssa.Value) value {
 	case *ssa.Const:
 		return constValue(key)
 	case *ssa.Global:
+		if pkg, bad := fr.i.eng.uninit[key]; bad {
+			panic(engineError{fmt.Sprintf("global %s is used by %s but the initialiser of package %s is not run by the engine (it would hold its zero value)", key.String(), fr.fn, pkg)})
+		}
 		if r, ok := fr.i.globals[key]; ok {
 			return r
 		}
